@@ -399,6 +399,15 @@ func (x *Exec) callFunc(env *evalEnv, n *ast.CallExpr, fn *types.Func, recvExpr 
 						boxedRef = x.st.vars[o].S
 					}
 				}
+				if boxedRef == "" {
+					// (*p).M() with a pointer-receiver method: the receiver is p itself
+					if se, ok := ast.Unparen(recvExpr).(*ast.StarExpr); ok && len(recvPath) == 0 {
+						pv := x.expr(env, se.X)
+						if _, isP := ptrElem(pv.Ty); isP {
+							boxedRef = pv.S
+						}
+					}
+				}
 				if boxedRef != "" {
 					r = Val{boxedRef, rt}
 				} else {
